@@ -54,6 +54,12 @@ def Geo.Ok (g : Geo) : Prop := 0 < g.step ∧ 1 ≤ g.w ∧ 1 ≤ g.h
 
 instance (g : Geo) : Decidable g.Ok := by unfold Geo.Ok; infer_instance
 
+/-- the geometry of the only caller of `Init` in the repository, the factory registered in
+zonespace.go: `Init(-MaxWidth, -MaxWidth, MaxWidth, MaxWidth, 5)` with `define.MaxWidth = 30`
+(quarter units); tied to the code by `reset kind=x default` (the harness calls
+`factory.CreateZoneSpace()`, the model uses this constant) -/
+def Geo.factory : Geo := Geo.init (-120) (-120) 120 120 20
+
 /-- `nToZoneN(n, begin, step, max)` as repaired: `f := (n-begin)/step` (exact rational
 here); `!(f > 0)` is `n - begin ≤ 0` because `step > 0`; `f >= float32(max)` is
 `max*step ≤ n - begin`; `int(f)` truncates. -/
@@ -198,6 +204,96 @@ def Ref.brute (m : Ref) (q : Pos) (r : Int) : List Nat := (m.filter fun ip => wi
 
 /-- the id ↦ position content of the zoned space -/
 def Space.positions (s : Space) : Ref := s.ents.map fun e => (e.id, e.pos)
+
+/-! ### the brute-force implementation `SimpleSpace` (simple.go), statement by statement
+
+Heap representation: `values` is the slice `[]*EntityInfo` as the list of the objects
+`(Id, Pos)` in slice order; `keys` is the key set of the map `entities` (the map entry of
+`id` points to an object of `values` whose `Id` is `id`: following that pointer and
+writing `Pos` = rewriting the position of the objects with that `Id`).
+* `AddEntity`       : known id → `s.entities[id].Pos = pos` (it MOVES a live id — unlike
+                      `ZoneSpace.AddEntity`, which ignores it); else new object, map insert, append
+* `RemoveEntity`    : `delete(s.entities, id)`; `findIndex(id)` = first object with that `Id`;
+                      if found `slices.Delete` it
+* `UpdateEntityPos` : unknown id → no-op; else write `Pos`
+* `SearchCircleTargets` : scan `values` in order, keep `!(dist > radius)`, ask the searcher -/
+
+structure Simple where
+  keys : List Nat := []
+  values : List (Nat × Pos) := []
+deriving Repr
+
+def setPos (vs : List (Nat × Pos)) (id : Nat) (p : Pos) : List (Nat × Pos) :=
+  vs.map fun ip => if ip.1 == id then (id, p) else ip
+
+/-- `slices.Delete(values, i, i+1)` for `i = findIndex(id)`, nothing when `findIndex` is -1 -/
+def eraseFirstId : List (Nat × Pos) → Nat → List (Nat × Pos)
+  | [], _ => []
+  | ip :: l, id => if ip.1 == id then l else ip :: eraseFirstId l id
+
+def Simple.add (s : Simple) (id : Nat) (p : Pos) : Simple :=
+  if s.keys.contains id then { s with values := setPos s.values id p }
+  else { keys := s.keys ++ [id], values := s.values ++ [(id, p)] }
+
+def Simple.del (s : Simple) (id : Nat) : Simple :=
+  { keys := s.keys.erase id, values := eraseFirstId s.values id }
+
+def Simple.mov (s : Simple) (id : Nat) (p : Pos) : Simple :=
+  if s.keys.contains id then { s with values := setPos s.values id p } else s
+
+def Simple.step (s : Simple) : Op → Simple
+  | .add id p => s.add id p
+  | .mov id p => s.mov id p
+  | .del id => s.del id
+
+def Simple.run (s : Simple) : List Op → Simple
+  | [] => s
+  | op :: ops => (s.step op).run ops
+
+/-- `SimpleSpace.SearchCircleTargets` with a searcher whose `Validate` is `v` -/
+def Simple.searchV (s : Simple) (q : Pos) (r : Int) (v : Nat → Bool) : List Nat :=
+  (s.values.filter fun ip => within q r ip.2 && v ip.1).map (·.1)
+
+def Simple.search (s : Simple) (q : Pos) (r : Int) : List Nat := s.searchV q r (fun _ => true)
+
+/-- the contract of `SimpleSpace` as a plain map: `add` is an upsert -/
+def Ref.stepS (m : Ref) : Op → Ref
+  | .add id p => if m.has id then m.map (fun ip => if ip.1 == id then (id, p) else ip) else m ++ [(id, p)]
+  | .mov id p => m.map fun ip => if ip.1 == id then (id, p) else ip
+  | .del id => m.filter fun ip => ip.1 != id
+
+def Ref.runS (m : Ref) : List Op → Ref
+  | [] => m
+  | op :: ops => (m.stepS op).runS ops
+
+/-- what the correspondence harness hands to `SimpleSpace` when it is used as the reference of the
+ZONED contract: every op except an `add` of an id that is live at that moment -/
+def dropLiveAdds (m : Ref) : List Op → List Op
+  | [] => []
+  | .add id p :: ops => if m.has id then dropLiveAdds m ops else .add id p :: dropLiveAdds (m.step (.add id p)) ops
+  | .mov id p :: ops => .mov id p :: dropLiveAdds (m.step (.mov id p)) ops
+  | .del id :: ops => .del id :: dropLiveAdds (m.step (.del id)) ops
+
+/-! ### searchers (`define.ISearcher`): `Validate` filters, `AddCandidate` collects
+
+`Zone.SearchCircleTargets` / `SimpleSpace.SearchCircleTargets` call `searcher.Validate(id, dist)`
+for every entity with `!(dist > radius)` and `AddCandidate` when it says yes; `MakeResults`
+returns what the searcher has collected — for `searchers.FindPlayers` that is the field `tars`,
+which is appended to and never reset: `acc` is its content before the query. -/
+
+def Space.zoneSearchV (s : Space) (q : Pos) (r : Int) (v : Nat → Bool) (i : Nat) : List Nat :=
+  (s.zoneIds i).filter fun id =>
+    match s.find id with
+    | some e => within q r e.pos && v id
+    | none => false
+
+/-- `ZoneSpace.SearchCircleTargets` with a searcher whose `Validate` is `v` -/
+def Space.searchV (s : Space) (q : Pos) (r : Int) (v : Nat → Bool) : List Nat :=
+  (visited s.geo q r).flatMap (s.zoneSearchV q r v)
+
+/-- a query through a `FindPlayers`-like searcher object whose `tars` holds `acc` already -/
+def Space.searchAcc (s : Space) (acc : List Nat) (q : Pos) (r : Int) (v : Nat → Bool) : List Nat :=
+  acc ++ s.searchV q r v
 
 /-! ### insertion sort, for canonical output in the driver -/
 def insertSorted (a : Nat) : List Nat → List Nat
